@@ -1805,15 +1805,28 @@ class Numpy:
         arr, rows = self.dense(I, a[0], "np.delete")
         axis = k.get("axis", a[2] if len(a) > 2 else None)
         obj = a[1]
-        if axis != 0:
-            raise Unsupported("np.delete along an axis other than 0")
-        idx = [obj] if isinstance(obj, int) else [x for x in I.iterate(obj)]
+        if axis not in (0, 1) or (axis == 1 and arr.ndim != 2):
+            raise Unsupported("np.delete along an axis other than 0 / 1 of a matrix")
+        if isinstance(obj, NDArr):
+            _, obj = self.dense(I, obj, "np.delete positions")
+        idx = [obj] if isinstance(obj, (int, SV)) else [x for x in I.iterate(obj)]
+        idx = [int(z3.simplify(zint(x)).as_long()) if isinstance(x, SV) and z3.is_int_value(z3.simplify(zint(x))) else x for x in idx]
         if not all(isinstance(x, int) for x in idx):
             raise Unsupported("np.delete with symbolic positions")
-        m = len(rows)
-        idx = {x % m if -m <= x < m else I.raise_exc(IndexError, "np.delete index out of bounds") for x in idx}
-        kept = [r for i, r in enumerate(rows) if i not in idx]
-        return self.from_nested(I, kept, arr.kind, (len(kept),) + tuple(arr.shape[1:]))
+        m = arr.shape[axis]
+        for x in idx:
+            if not -m <= x < m:
+                I.raise_exc(IndexError, "np.delete index out of bounds")
+        drop = {x % m for x in idx} if m else set()
+        if axis == 0:
+            kept = [r for i, r in enumerate(rows) if i not in drop]
+            shape = (len(kept),) + tuple(arr.shape[1:])
+        else:
+            kept = [[v for j, v in enumerate(r) if j not in drop] for r in rows]
+            shape = (arr.shape[0], arr.shape[1] - len(drop))
+        if any(d == 0 for d in shape):
+            return NDArr.fresh(lambda *i: (False if arr.kind == "bool" else 0), shape, arr.kind)
+        return self.from_nested(I, kept, arr.kind, shape)
 
     def matmul(self, I, x, y, node):
         self.note(I)
